@@ -357,7 +357,7 @@ func init() {
 			if tier == "thorough" {
 				engines, nreq = 1500, 120
 			}
-			for _, s := range []string{"", "a", "abcde", "example.org", "http://example.org/", "\x00\xff"} {
+			for _, s := range []string{"", "a", "abcde", "example.org", "http://example.org/", "\x00\xff", "b\u00fccher.example", "\u043f\u0440\u0438\u043c\u0435\u0440", "\xff\xfe\xfd abc \xc3"} {
 				emit("hash\t" + hx(s))
 			}
 			for i := 0; i < engines; i++ {
@@ -424,7 +424,17 @@ func init() {
 		Run: func(line string, st *Stats) (string, string, bool) {
 			f := strings.Split(line, "\t")
 			if f[0] == "hash" {
-				return fmt.Sprint(filterutil.FastHash(unhx(f[1]))), line, true
+				// rules are filed under FastHash(window) and looked up under FastHashBetween(url, i, j): one function
+				str := unhx(f[1])
+				flag := ""
+				for i := 0; i <= len(str); i++ {
+					for j := i + 1; j <= len(str) && j <= i+6; j++ { // FastHash("") is 0 by definition: non-empty windows only
+						if filterutil.FastHashBetween(str, i, j) != filterutil.FastHash(str[i:j]) && flag == "" {
+							flag = fmt.Sprintf("!HASH-OF-SUBSTRING-DIFFERS-FROM-HASH-BETWEEN:%d:%d", i, j)
+						}
+					}
+				}
+				return fmt.Sprint(filterutil.FastHash(str)) + flag, line, true
 			}
 			ls := decodeStorage(f[1])
 			reqs := decodeReqs(f[2])
